@@ -533,12 +533,26 @@ func (ev *SpecEnv) binary(x *ast.BinaryExpr) (Val, types.Type) {
 		return Scalar{IGt(a, b)}, types.Typ[types.Bool]
 	case token.GEQ:
 		return Scalar{IGe(a, b)}, types.Typ[types.Bool]
+	case token.AND, token.OR, token.XOR:
+		// bitwise operations on machine integers of a known unsigned type (as the code's): constants are folded,
+		// case distinctions over constants are computed per case, anything else is the uninterpreted operation
+		if rt != nil {
+			if bits, signed, ok := intInfo(rt); ok && !signed {
+				return Scalar{ev.ex.intBitop(x.Op, a, b, bits, false)}, rt
+			}
+		}
 	}
 	ev.fail("unsupported binary op %s in %s", x.Op, exprString(x))
 	return nil, nil
 }
 
 func (ev *SpecEnv) valEq(a, b Val, e ast.Expr) *Term {
+	// callarg()/callres() of a call this path did not make: arbitrary, and so is any comparison with it
+	for _, v := range []Val{a, b} {
+		if s, ok := v.(Scalar); ok && s.T.Op == "sym" && strings.HasPrefix(s.T.Name, "nocall_") {
+			return ev.ex.fresh("nocalleq", BoolSort)
+		}
+	}
 	a = ev.coerce(a, b)
 	b = ev.coerce(b, a)
 	// nil comparisons
@@ -668,6 +682,14 @@ func (ev *SpecEnv) callExpr(x *ast.CallExpr) (Val, types.Type) {
 			ev.fail("%s: the site must be a string literal", name)
 		}
 		site, _ := strconv.Unquote(lit.Value)
+		if ev.assuming {
+			// in the contract of a callee, used at one of its call sites: the calls the callee made are its own
+			// business - whether it made one is unknown to the caller, what it passed is arbitrary
+			if name == "called" {
+				return Scalar{ev.ex.fresh("calleecalled", BoolSort)}, types.Typ[types.Bool]
+			}
+			return Scalar{ev.ex.fresh("nocall", IntSort)}, nil
+		}
 		var rec *callRecord
 		if ev.st.Calls != nil {
 			rec = ev.st.Calls[site]
